@@ -5,14 +5,17 @@
 //!   SCAN <ts> <L|S> <hp> <npolls> <pop0> <script>
 //!     ts      own station address (0..125)
 //!     L|S     live list | DP scanner
-//!     hp      HighPrioOnly argument: 0 = No, 1 = Yes, 2 = alternating
+//!     hp      HighPrioOnly argument of call i: 0 = No, 1 = Yes, 2 = No/Yes alternating, 3 = Yes/No alternating,
+//!             4 = Yes on every third call, 5 = irregular (hash of i)
 //!     npolls  number of transmit_telegram calls
 //!     pop0    initial responders: `-` or `a=replyhex,...` (the bytes station a answers with)
-//!     script  `-` or comma separated, k = index of the probe (0-based count of transmitted requests)
-//!               k+a=hex   station a appears (or changes its answer) before probe k
-//!               k-a       station a disappears before probe k
-//!               k!T       the reply to probe k is lost
-//!               k!hex     probe k is answered with these bytes whoever is asked
+//!     script  `-` or comma separated; entry k takes effect at transmit_telegram call number 2k (0-based), which
+//!             for an application that needs two calls per address is the call that starts probe number k.  The
+//!             environment is a function of time (calls), not of what the application chose to do.
+//!               k+a=hex   station a appears (or changes its answer) before call 2k
+//!               k-a       station a disappears before call 2k
+//!               k!T       the reply to a request sent in call 2k is lost
+//!               k!hex     a request sent in call 2k is answered with these bytes whoever is asked
 //!   RAW <ts> <L|S> <ops>      callbacks in arbitrary order (not respecting the contract): panic sites
 //!     ops     comma separated: t | r<addr>=<hex> | o<addr>
 //!
@@ -63,16 +66,18 @@ impl App for DpScanner {
 }
 
 fn hp_of(hp: u8, i: usize) -> HighPrioOnly {
-    match hp {
-        0 => HighPrioOnly::No,
-        1 => HighPrioOnly::Yes,
-        _ => {
-            if i % 2 == 0 {
-                HighPrioOnly::No
-            } else {
-                HighPrioOnly::Yes
-            }
-        }
+    let yes = match hp {
+        0 => false,
+        1 => true,
+        2 => i % 2 == 1,
+        3 => i % 2 == 0,
+        4 => i % 3 == 0,
+        _ => ((i as u32).wrapping_mul(0x9E37_79B1) >> 13) & 1 == 1,
+    };
+    if yes {
+        HighPrioOnly::Yes
+    } else {
+        HighPrioOnly::No
     }
 }
 
@@ -130,7 +135,6 @@ fn run_scan<A: App>(app: &mut A, ts: u8, hp: u8, npolls: usize, pop0: &str, scri
         }
     }
     let script = parse_script(script);
-    let mut probe = 0usize;
     let mut prev_bits: Option<u128> = None;
     let mut buf = [0u8; 256];
     for i in 0..npolls {
@@ -138,7 +142,7 @@ fn run_scan<A: App>(app: &mut A, ts: u8, hp: u8, npolls: usize, pop0: &str, scri
         let mut lost = false;
         let mut noise: Option<&Vec<u8>> = None;
         for (k, it) in script.iter() {
-            if *k == probe {
+            if 2 * *k == i {
                 match it {
                     Item::Appear(a, h) => pop[*a as usize] = Some(h.clone()),
                     Item::Disappear(a) => pop[*a as usize] = None,
@@ -158,7 +162,6 @@ fn run_scan<A: App>(app: &mut A, ts: u8, hp: u8, npolls: usize, pop0: &str, scri
                 out.push_str(&format!("N {} {}", e, b));
             }
             Some(resp) => {
-                probe += 1;
                 let wire = hex(&buf[..resp.bytes_sent()]);
                 let e1 = app.ev();
                 out.push_str(&format!("X{} {} {}", wire, opt_str(resp.expects_reply()), e1));
@@ -388,23 +391,28 @@ fn pick_addr(rng: &mut Rng, ts: u8) -> u8 {
     }
 }
 
-fn gen_scan(rng: &mut Rng, long: bool) -> String {
+/// `settled`: Some(hp) = a clean long history (valid answers only, nothing lost) whose population stops changing at
+/// least two sweeps before the end, with the given HighPrioOnly mode: food for the ground-truth oracle.
+fn gen_scan(rng: &mut Rng, long: bool, settled: Option<u64>) -> String {
     let scanner = rng.chance(1, 2);
     let ts = match rng.below(8) {
         0 => 0,
         1 => 125,
         _ => rng.below(126) as u8,
     };
-    let hp = rng.below(3);
+    let hp = match settled {
+        Some(h) => h,
+        None => rng.below(6),
+    };
     // how clean the environment is: 0 = responders only answer validly and nothing is lost after
     // settling, 1 = additionally lost replies, 2 = additionally other answers
-    let dirt = rng.below(3);
+    let dirt = if settled.is_some() { 0 } else { rng.below(3) };
     let sweeps = if long { 3 + rng.below(3) as usize } else { 0 };
     let npolls = if long { sweeps * 252 + rng.below(9) as usize } else { 1 + rng.below(300) as usize };
     let nprobes = (npolls + 1) / 2;
     // population
     let mut members: Vec<u8> = vec![];
-    match rng.below(6) {
+    match if settled.is_some() { 1 + rng.below(5) } else { rng.below(6) } {
         0 => {}
         1 | 2 => {
             for _ in 0..1 + rng.below(8) {
@@ -429,7 +437,7 @@ fn gen_scan(rng: &mut Rng, long: bool) -> String {
         pop0.push(format!("{}={}", a, hex(&bytes)));
     }
     // disturbances: settle early in 2 of 3 long cases so that two stable sweeps follow
-    let limit = if long && rng.chance(2, 3) { (sweeps - 2) * 126 - rng.below(20) as usize } else { nprobes };
+    let limit = if long && (settled.is_some() || rng.chance(2, 3)) { (sweeps - 2) * 126 - rng.below(20) as usize } else { nprobes };
     let mut script: Vec<(usize, String)> = vec![];
     if limit > 0 {
         let nchanges = match rng.below(4) {
@@ -509,15 +517,18 @@ fn gen_raw(rng: &mut Rng) -> String {
 
 pub fn gen(seed: u64, thorough: bool, out: &mut dyn FnMut(String)) {
     let mut rng = Rng::new(seed ^ 0x5ca9);
-    let (n_long, n_short, n_raw) = if thorough { (4000, 12000, 20000) } else { (400, 1200, 2000) };
+    let (n_long, n_short, n_raw, n_settled) = if thorough { (3000, 12000, 20000, 1200) } else { (300, 1200, 2000, 120) };
     // short histories first: a failing input reported first is a small one
     for _ in 0..n_raw {
         out(gen_raw(&mut rng));
     }
     for _ in 0..n_short {
-        out(gen_scan(&mut rng, false));
+        out(gen_scan(&mut rng, false, None));
+    }
+    for i in 0..n_settled {
+        out(gen_scan(&mut rng, true, Some(i % 6)));
     }
     for _ in 0..n_long {
-        out(gen_scan(&mut rng, true));
+        out(gen_scan(&mut rng, true, None));
     }
 }
